@@ -110,6 +110,8 @@ let meta (w : string array) =
     | [ "wa"; s ] -> step (PWStateA (z_of_int (int_of_string s)))
     | [ "wb" ] -> step PWStateB
     | [ "sv"; b ] -> step (PSVis (b = "1"))
+    | [ "rv"; k ] -> step (PRVis (z_of_int (int_of_string k)))
+    | [ "lv"; k ] -> step (PLVis (z_of_int (int_of_string k)))
     | [ "u"; s; nn ] -> step (PSetup (z_of_int (int_of_string s), nn = "1"))
     | [ "s" ] -> step RShare
     | [ "o" ] -> step RWState
@@ -142,6 +144,8 @@ let sysm (w : string array) =
     | [ "d"; i; it; pay ] -> step (SDeposit (ni i, { hit = zi it; hpay = zi pay }))
     | [ "v"; i; c ] -> step (SVis (ni i, zi c))
     | [ "sv"; i; b ] -> step (SSVis (ni i, b = "1"))
+    | [ "rv"; i; k ] -> step (SRVis (ni i, zi k))
+    | [ "lv"; i; k ] -> step (SLVis (ni i, zi k))
     | [ "w"; i; s ] -> step (SWState (ni i, zi s))
     | [ "wb"; i ] -> step (SWStateB (ni i))
     | [ "wa"; i; s ] -> step (SWStateA (ni i, zi s))
@@ -177,6 +181,23 @@ let czar (w : string array) =
   let gc = czar_gather igrp (grids int_of_string 0 w.(3)) in
   let gs = czar_gather fgrp (grids fl 0.0 w.(4)) in
   Printf.printf "Z cnt=%s sum=%s\n" (dump ns string_of_int gc) (dump ns hex gs)
+
+(* GATHER <n> <nc> <ns> w0 w1 ..   with  wi = cG;cL;cLoc;cZ;sG;sL;sLoc;sZ  (comma separated grids of walker i before the gather)
+   -> what every walker holds after replica_share_CZAR() according to czar_gather_step, same format, then gz=c;s of replica 0 *)
+let gather (w : string array) =
+  let n = int_of_string w.(1) and nc = int_of_string w.(2) and ns = int_of_string w.(3) in
+  let mk conv zero l = let a = Array.of_list (List.map conv (split ',' l)) in
+    (fun z -> let i = int_of_z z in if i >= 0 && i < Array.length a then a.(i) else zero) in
+  let parts = List.init n (fun i -> Array.of_list (split ';' w.(4 + i))) in
+  let cws = List.map (fun p -> { e_w = { wG = mk int_of_string 0 p.(0); wL = mk int_of_string 0 p.(1); wLoc = mk int_of_string 0 p.(2); wlast = Z0 };
+                                 e_z = mk int_of_string 0 p.(3); e_gz = grid0 igrp }) parts in
+  let sws = List.map (fun p -> { e_w = { wG = mk fl 0.0 p.(4); wL = mk fl 0.0 p.(5); wLoc = mk fl 0.0 p.(6); wlast = Z0 };
+                                 e_z = mk fl 0.0 p.(7); e_gz = grid0 fgrp }) parts in
+  let ca = czar_gather_step igrp cws and sa = czar_gather_step fgrp sws in
+  let outs = List.map2 (fun c s ->
+      Printf.sprintf "%s;%s;%s;%s;%s;%s;%s;%s" (dump nc string_of_int c.e_w.wG) (dump nc string_of_int c.e_w.wL) (dump nc string_of_int c.e_w.wLoc)
+        (dump nc string_of_int c.e_z) (dump ns hex s.e_w.wG) (dump ns hex s.e_w.wL) (dump ns hex s.e_w.wLoc) (dump ns hex s.e_z)) ca sa in
+  Printf.printf "G %s gz=%s;%s\n" (String.concat " " outs) (dump nc string_of_int (List.hd ca).e_gz) (dump ns hex (List.hd sa).e_gz)
 
 (* OPES <n> c,c,..;c,c,..  (one list of contributions per round, rank order; tokens are kept as strings)
    -> the kernel list of every walker, walkers separated by ; *)
@@ -218,6 +239,7 @@ let () =
          | "META" -> meta w
          | "SYS" -> sysm w
          | "CZAR" -> czar w
+         | "GATHER" -> gather w
          | "OPES" -> opes w
          | "OPESSUM" -> opessum w
          | _ -> print_endline "?")
